@@ -360,6 +360,16 @@ func (ri *RedisInput) syncData(wait usync.WaitCloser, redisCli *redis.Standalone
 		}()
 		if wait.IsClosed() {
 			ri.rdbLimiterRelease()
+			// The writer created above is registered in the channel from its construction on.
+			// Leaving it behind left a snapshot nobody will ever write offered by GetRdb (valid
+			// offsets whose reader waits for ever; the next run continued the log behind it),
+			// and a stream writer open across the end of the run.
+			if rdbWriter != nil {
+				rdbWriter.Close()
+			}
+			if aofWriter != nil {
+				aofWriter.Close()
+			}
 			return nil
 		}
 		if isFullSync {
